@@ -14,7 +14,7 @@ PROPERTY = 'C12'
 META = {
     'level': 'exploration',
     'technique': 'differential runtime monitor across client settings + array-model oracle; bundle composition monitor on the client instance; printer/parser round trip for operation strings and paths',
-    'text': 'Operation lists also hold attribute services refused with a bare status, operations with no route path next to default-routed ones, and quoted text values with backslashes, commas and doubled quotes in the operation strings. Lists of 1..80 operations (reads, writes, range/type failures, attribute services, operations with differing route paths interleaved) are run through client.connector.operate '
+    'text': 'Text values are also composed of the value syntax\'s own characters (quote, comma, blank, tab, backslash); the typed proxy reads ask for one attribute several times declared as different types. Operation lists also hold attribute services refused with a bare status, operations with no route path next to default-routed ones, and quoted text values with backslashes, commas and doubled quotes in the operation strings. Lists of 1..80 operations (reads, writes, range/type failures, attribute services, operations with differing route paths interleaved) are run through client.connector.operate '
             'under depth {0,1,2,5,20} x multiple {0,100,250,500,4000} x fragment {False,True} (quick: a seeded subset) against the real TCP simulator, with the tag state reset in-process '
             'between settings. Every setting must yield exactly one result per operation, in order, with statuses and values equal across settings and equal to the array model. Every bundle '
             'sent is inspected: all member operations must share the route and send path the bundle was sent with. Operation strings in every documented form (tag or @class/instance/attribute, '
